@@ -65,6 +65,19 @@ class T:
         self.extra_enums = []       # enums used here that the state translation does not declare
         self.from_units = {}        # enum class -> source enum of its from_units classmethod
         self._scan_from_units(repo)
+        self.check_get_statement()
+
+    def check_get_statement(self):
+        """`_get_statement` is a primitive (`getStatement`: table entry of the member, `format.command`, `format.comment`, joined by a
+        blank - a function of its arguments and of the formatter, nothing remembered between calls); make sure it still is that"""
+        m = self.methods.get("_get_statement")
+        if m is None:
+            raise Unsupported("GCodeBuilder._get_statement not found")
+        body = [ast.unparse(b) for b in m.body if not (isinstance(b, ast.Expr) and isinstance(b.value, ast.Constant))]
+        want = ["entry = gcode_table.get_entry(value)", "command = self.format.command(entry.instruction, params)",
+                "comment = self.format.comment(comment or entry.description)", "return f'{command} {comment}'"]
+        if body != want:
+            raise Unsupported("GCodeBuilder._get_statement is no longer the stateless lookup the primitive `getStatement` transcribes: " + repr(body))
 
     def _scan_from_units(self, repo):
         for f in sorted((repo / "gscrib" / "enums").rglob("*.py")):
